@@ -171,8 +171,12 @@ impl Schedule {
 }
 
 // =====================================================================================================
-// train formations (C13: "removals keep the order"): vocabulary as in slices/admission.vs
+// train formations (C13: "removals keep the order"): vocabulary copied from slices/admission.vs (needed by
+// env/train_formation_update_shim.vs, which the slice includes after this file)
 // =====================================================================================================
+/// passenger capacity / seats of a formation: the sums over its vehicles
+pub open spec fn fcap(f: Seq<Vehicle>) -> int { isum(f.map_values(|v: Vehicle| v.vehicle_type.capacity as int)) }
+pub open spec fn fseats(f: Seq<Vehicle>) -> int { isum(f.map_values(|v: Vehicle| v.vehicle_type.seats as int)) }
 /// position of the first vehicle with the given id (s.len() if there is none)
 pub open spec fn first_pos(s: Seq<Vehicle>, v: VehicleIdx) -> int
     decreases s.len(),
@@ -182,9 +186,47 @@ pub open spec fn first_pos(s: Seq<Vehicle>, v: VehicleIdx) -> int
 pub open spec fn has_vehicle(s: Seq<Vehicle>, v: VehicleIdx) -> bool {
     exists|i: int| 0 <= i < s.len() && #[trigger] s[i].idx == v
 }
-/// the items of an iterator of nodes (`impl Iterator<Item = NodeIdx>`; the view for a SeqIter, see
-/// axiom_into_items_seqiter in env/seqiter.vs)
-pub open spec fn moved_seq<I: Iterator<Item = NodeIdx>>(it: I) -> Seq<NodeIdx> { into_items::<I, NodeIdx>(it) }
+/// C02: "the smaller of its vehicle type's and its route segment's maximal formation count",
+/// over the limits that are present; no limit iff neither is given
+pub open spec fn combined_limit(type_limit: Option<VehicleCount>, segment_limit: Option<VehicleCount>) -> Option<VehicleCount> {
+    match (type_limit, segment_limit) {
+        (Some(a), Some(b)) => Some(if a <= b { a } else { b }),
+        (Some(a), None) => Some(a),
+        (None, Some(b)) => Some(b),
+        (None, None) => None,
+    }
+}
+impl Network {
+    pub open spec fn sp_trip(&self, n: NodeIdx) -> ServiceTrip { self.sp_node(n)->Service_0.1 }
+    pub open spec fn is_trip(&self, n: NodeIdx) -> bool {
+        self.has(n) && self.sp_node(n) is Service && self.vehicle_types.vehicle_types@.contains_key(self.sp_trip(n).vehicle_type)
+    }
+}
+impl Schedule {
+    /// the formation grows: the receiver is a real vehicle and the provider is None or a dummy
+    pub open spec fn grows(&self, provider: Option<VehicleIdx>, receiver: Option<Vehicle>) -> bool {
+        receiver is Some && !self.sp_is_dummy(receiver.unwrap().idx) && !(provider is Some && !self.sp_is_dummy(provider.unwrap()))
+    }
+    /// a real receiver takes the position of a real provider
+    pub open spec fn replaces(&self, provider: Option<VehicleIdx>, receiver: Option<Vehicle>) -> bool {
+        receiver is Some && !self.sp_is_dummy(receiver.unwrap().idx) && provider is Some && !self.sp_is_dummy(provider.unwrap())
+    }
+    /// a real provider leaves, nobody (or a dummy) takes over
+    pub open spec fn shrinks(&self, provider: Option<VehicleIdx>, receiver: Option<Vehicle>) -> bool {
+        !(receiver is Some && !self.sp_is_dummy(receiver.unwrap().idx)) && provider is Some && !self.sp_is_dummy(provider.unwrap())
+    }
+    /// C02: the number of vehicles a node may host: its tracks for a maintenance slot, the smaller of the
+    /// type's and the route segment's maximal formation count for a service trip; None = unlimited
+    pub open spec fn sp_node_limit(&self, node: NodeIdx) -> Option<VehicleCount> {
+        match self.network.sp_node(node) {
+            Node::Maintenance((_, m)) => Some(m.track_count),
+            Node::Service((_, s)) => combined_limit(
+                self.network.vehicle_types.vehicle_types@[s.vehicle_type].maximal_formation_count,
+                s.maximal_formation_count),
+            _ => None,
+        }
+    }
+}
 /// node n is an activity among the moved nodes
 pub open spec fn moved_activity(net: &Network, moved: Seq<NodeIdx>, n: NodeIdx) -> bool {
     moved.contains(n) && net.sp_node(n).sp_is_activity()
@@ -200,9 +242,50 @@ pub open spec fn has_service(net: &Network, s: Seq<NodeIdx>) -> bool {
     exists|i: int| 0 <= i < s.len() && #[trigger] net.sp_node(s[i]) is Service
 }
 
+/// what `retain(is_service)` leaves: the service trips in order; none iff there is no service trip
+pub proof fn lemma_svc_filter(net: &Network, s: Seq<NodeIdx>, out: Seq<NodeIdx>)
+    requires
+        all_in_net(net, s),
+        exists|mask: Seq<bool>| #![trigger mask_filter(s, mask)] mask.len() == s.len()
+            && (forall|i: int| 0 <= i < mask.len() ==> #[trigger] mask[i] == (net.sp_node(s[i]) is Service))
+            && out == mask_filter(s, mask),
+    ensures
+        out == svc_filter(net, s),
+        out.len() == 0 <==> !has_service(net, s),
+        out.len() <= s.len(),
+        all_in_net(net, out),
+{
+    let mask = choose|mask: Seq<bool>| #![trigger mask_filter(s, mask)] mask.len() == s.len()
+        && (forall|i: int| 0 <= i < mask.len() ==> #[trigger] mask[i] == (net.sp_node(s[i]) is Service))
+        && out == mask_filter(s, mask);
+    assert(mask =~= svc_mask(net, s));
+    lemma_mask_filter_sel(s, mask);
+    if has_service(net, s) {
+        let i = choose|i: int| 0 <= i < s.len() && #[trigger] net.sp_node(s[i]) is Service;
+        assert(mask[i] && s[i] == s[i]);
+        assert(out.contains(s[i]));
+    }
+    if out.len() > 0 {
+        assert(out.contains(out[0]));
+        let p = choose|p: int| 0 <= p < s.len() && mask[p] && #[trigger] s[p] == out[0];
+        assert(net.sp_node(s[p]) is Service);
+    }
+    assert forall|j: int| 0 <= j < out.len() implies #[trigger] net.has(out[j]) by {
+        assert(out.contains(out[j]));
+        let p = choose|p: int| 0 <= p < s.len() && mask[p] && #[trigger] s[p] == out[j];
+        assert(net.has(s[p]));
+    }
+}
+
 // =====================================================================================================
 // Schedule::remove_segment: validity of the schedule as far as the operation needs it, and its effect
 // =====================================================================================================
+pub open spec fn ids_valid(vehicles: VehicleMap, tours: TourMap, dummies: TourMap, ids: Seq<VehicleIdx>, counter: usize) -> bool {
+    &&& forall|v: VehicleIdx| #[trigger] vehicles.contains_key(v) ==> v is Vehicle && vehicles[v].idx == v
+    &&& forall|v: VehicleIdx| #[trigger] vehicles.contains_key(v) <==> tours.contains_key(v)
+    &&& forall|d: VehicleIdx| #[trigger] dummies.contains_key(d) ==> d is Dummy && (d->Dummy_0 as int) < counter
+    &&& sorted_cmp(ids)
+}
 /// the outcome of Schedule::replace_vehicle_by_dummy (not under contract here)
 pub uninterp spec fn spec_replace_by_dummy(s: &Schedule, v: VehicleIdx) -> Result<Schedule, String>;
 
@@ -211,10 +294,7 @@ impl Schedule {
     /// dummy tours are stored under ids of the `Dummy` kind that were handed out already (index below the
     /// counter); the list of dummy ids is sorted
     pub open spec fn ids_ok(&self) -> bool {
-        &&& forall|v: VehicleIdx| #[trigger] self.vehicles@.contains_key(v) ==> v is Vehicle && self.vehicles@[v].idx == v
-        &&& forall|v: VehicleIdx| #[trigger] self.vehicles@.contains_key(v) <==> self.tours@.contains_key(v)
-        &&& forall|d: VehicleIdx| #[trigger] self.dummy_tours@.contains_key(d) ==> d is Dummy && (d->Dummy_0 as int) < self.vehicle_counter
-        &&& sorted_cmp(self.dummy_ids_sorted@)
+        ids_valid(self.vehicles@, self.tours@, self.dummy_tours@, self.dummy_ids_sorted@, self.vehicle_counter)
     }
     /// C10: "each non-depot node is covered by exactly one train formation", which lists the vehicles whose
     /// tours contain the node
@@ -297,6 +377,7 @@ impl Schedule {
         &&& dummies1.contains_key(id)
         &&& dummies1 == self.dummy_tours@.insert(id, dummies1[id])
         &&& dummies1[id].nodes@ == svc_filter(&self.network, removed) && dummies1[id].is_dummy && dummies1[id].network == self.network
+        &&& dummies1[id].caches_ok()
         &&& ids_gain(self.dummy_ids_sorted@, ids1, id) && sorted_cmp(ids1)
     }
     /// "formations elsewhere stay untouched"; at the removed activities the provider leaves its formation,
@@ -306,6 +387,14 @@ impl Schedule {
         &&& forall|n: NodeIdx| !moved_activity(&self.network, removed, n) ==> #[trigger] tf1[n] == self.train_formations@[n]
         &&& forall|n: NodeIdx| moved_activity(&self.network, removed, n)
                 ==> (#[trigger] tf1[n]).formation@ == self.train_formations@[n].formation@.remove(first_pos(self.train_formations@[n].formation@, v))
+    }
+    /// C09: the unserved-passenger pair changes by exactly - Σ unserved(old formation) + Σ unserved(new formation)
+    /// over the removed nodes (vocabulary of env/train_formation_update_shim.vs)
+    pub open spec fn unserved_follow(&self, removed: Seq<NodeIdx>, v: VehicleIdx, u1: (PassengerCount, PassengerCount)) -> bool {
+        let tf0 = self.train_formations@;
+        let n = removed.len() as int;
+        &&& u1.0 == self.unserved_passengers.0 - self.un_sum(tf0, Some(v), None, removed, n, false, 0) + self.un_sum(tf0, Some(v), None, removed, n, true, 0)
+        &&& u1.1 == self.unserved_passengers.1 - self.un_sum(tf0, Some(v), None, removed, n, false, 1) + self.un_sum(tf0, Some(v), None, removed, n, true, 1)
     }
     /// C15 / C10 / C09: the rotation cycles follow the new tours; other vehicle types are untouched
     pub open spec fn transitions_follow(&self, v: VehicleIdx, trs1: Map<VehicleTypeIdx, Transition>, mv1: MaintenanceCounter, vehicles1: VehicleMap, tours1: TourMap) -> bool {
@@ -329,15 +418,20 @@ pub proof fn lemma_tour_cost_le(tours: TourMap, vs: Seq<VehicleIdx>, j: int, k: 
     else { lemma_pre_costs_mono(tours, vs, 0, k - 1); }
 }
 
-/// what a valid schedule provides for the tour of a real vehicle
+/// what a valid schedule provides for a real vehicle and its tour
 pub proof fn lemma_provider(s: &Schedule, v: VehicleIdx)
     requires s.rs_ok(), s.vehicles@.contains_key(v),
     ensures
         s.tours@.contains_key(v), s.has_tour(v), s.sp_tour_of(v) == s.tours@[v],
-        s.vehicle_ok(v),
-        v is Vehicle, !s.dummy_tours@.contains_key(v),
+        s.tours@[v].wf(), s.tours@[v].caches_ok(), tour_len_ok(s.tours@[v].nodes@), !s.tours@[v].is_dummy,
+        *s.tours@[v].network == *s.network, s.network.wf(),
+        v is Vehicle, !s.sp_is_dummy(v), s.vehicles@[v].idx == v,
         s.tours@[v].costs <= s.costs <= sched_cost_bound(),
         s.real_tour_ok(v),
+        usage_exact_for(s.depot_usage@, &s.network, s.vehicles@, s.tours@, v),
+        sorted_cmp(s.dummy_ids_sorted@),
+        s.vehicle_counter <= 0xffff ==> !s.dummy_tours@.contains_key(s.next_dummy_id()),
+        s.ids_ok(),
 {
     let vs = sched_vehicles(s);
     assert(s.tours@.contains_key(v));
@@ -345,9 +439,13 @@ pub proof fn lemma_provider(s: &Schedule, v: VehicleIdx)
     assert(vs.contains(v));
     let j = choose|j: int| 0 <= j < vs.len() && vs[j] == v;
     lemma_tour_cost_le(s.tours@, vs, j, vs.len() as int);
+    assert(usage_exact_for(s.depot_usage@, &s.network, s.vehicles@, s.tours@, v));
+    if s.vehicle_counter <= 0xffff && s.dummy_tours@.contains_key(s.next_dummy_id()) {
+        assert((s.next_dummy_id()->Dummy_0 as int) < s.vehicle_counter);
+    }
 }
 
-/// the removed block: nodes of the network, pairwise distinct; its activities are inner nodes of the tour
+/// the removed block: nodes of the network, pairwise distinct
 pub proof fn lemma_removed_block(t: &Tour, s: int, e: int)
     requires t.wf(), 0 <= s <= e < t.len(), tour_len_ok(t.nodes@),
     ensures
@@ -358,15 +456,118 @@ pub proof fn lemma_removed_block(t: &Tour, s: int, e: int)
         len_ok(t.rest(s, e + 1)),
         forall|i: int| 0 <= i < e + 1 - s ==> #[trigger] t.mid(s, e + 1)[i] == t.nodes@[s + i],
 {
-    lemma_cuts(t, s, e + 1);
+    reveal(Tour::mid); reveal(Tour::rest);
     let m = t.mid(s, e + 1);
+    let k = t.rest(s, e + 1);
+    assert forall|i: int| 0 <= i < m.len() implies #[trigger] t.network.has(m[i]) by { assert(t.network.has(t.nodes@[s + i])); }
+    assert forall|i: int| 0 <= i < k.len() implies #[trigger] t.network.has(k[i]) by {
+        if i < s { assert(t.network.has(t.nodes@[i])); } else { assert(k[i] == t.nodes@[e + 1 + (i - s)]); assert(t.network.has(t.nodes@[e + 1 + (i - s)])); }
+    }
     assert forall|i: int, j: int| 0 <= i < m.len() && 0 <= j < m.len() && i != j implies m[i] != m[j] by {
         if m[i] == m[j] { lemma_tour_distinct(t, s + i, s + j); }
     }
 }
 
+/// after Tour::remove accepted the segment and left a tour `nt`: what the bookkeeping steps need
+pub proof fn lemma_cut(s: &Schedule, segment: Segment, v: VehicleIdx, nt: Tour)
+    requires
+        s.rs_ok(), s.removes(segment, v), s.shrunk_counter_ok(segment, v),
+        nt.nodes@ == s.kept_nodes(segment, v), nt.network == s.tours@[v].network, nt.wf(), !nt.is_dummy, nt.caches_ok(),
+    ensures
+        all_in_net(&s.network, s.removed_nodes(segment, v)),
+        s.removed_nodes(segment, v).no_duplicates(),
+        len_ok(s.removed_nodes(segment, v)),
+        // every removed activity is an inner node of the tour: it has a formation that lists the provider
+        forall|n: NodeIdx| moved_activity(&s.network, s.removed_nodes(segment, v), n) ==> #[trigger] s.train_formations@.contains_key(n),
+        forall|n: NodeIdx| moved_activity(&s.network, s.removed_nodes(segment, v), n) ==> has_vehicle((#[trigger] s.train_formations@[n]).formation@, v),
+        s.costs + nt.costs <= u64::MAX,
+        tour_of_net(&s.network, &nt),
+        tour_ok(&s.network, &nt),
+        // the provider leaves every formation it is removed from: the formation bookkeeping succeeds
+        s.all_ok(s.train_formations@, Some(v), None, s.removed_nodes(segment, v), s.removed_nodes(segment, v).len() as int),
+{
+    lemma_provider(s, v);
+    let t0 = s.tours@[v];
+    let lo = s.seg_lo(segment, v);
+    let hi = s.seg_hi(segment, v);
+    let removed = s.removed_nodes(segment, v);
+    assert(0 <= lo <= hi < t0.len());
+    lemma_removed_block(&t0, lo, hi);
+    assert forall|n: NodeIdx| moved_activity(&s.network, removed, n)
+        implies s.train_formations@.contains_key(n) && has_vehicle(s.train_formations@[n].formation@, v) by {
+        let i = choose|i: int| 0 <= i < removed.len() && removed[i] == n;
+        assert(removed[i] == t0.nodes@[lo + i]);
+        lemma_tour_kinds(&t0, lo + i);
+        assert(0 < lo + i < t0.nodes@.len() - 1);
+        assert(s.network.has(n));
+        assert(has_vehicle(s.train_formations@[s.tours@[v].nodes@[lo + i]].formation@, v));
+    }
+    lemma_cost_bounds(&t0.network, nt.nodes@);
+    assert(-counter_bound() <= tour_counter(&nt) <= counter_bound());
+    let rv: Option<Vehicle> = None;
+    assert(s.shrinks(Some(v), rv));
+    assert forall|j: int| 0 <= j < removed.len() && !s.network.sp_node(#[trigger] removed[j]).sp_is_depot()
+        implies s.repl_ok(s.train_formations@[removed[j]].formation@, Some(v), rv, removed[j]) by {
+        assert(removed.contains(removed[j]));
+        assert(moved_activity(&s.network, removed, removed[j]));
+    }
+}
+
+/// C09: the usage table after the bookkeeping step for the provider
+pub proof fn lemma_usage_step(s: &Schedule, du1: UsageMap, tours1: TourMap, v: VehicleIdx, nt: Tour)
+    requires
+        s.rs_ok(), tours1 == s.tours@.insert(v, nt),
+        usage_exact_for(du1, &s.network, s.vehicles@, tours1, v),
+        usage_same_except(s.depot_usage@, du1, v),
+    ensures usage_exact(du1, &s.network, s.vehicles@, tours1),
+{
+    lemma_usage_exact_step(s.depot_usage@, du1, &s.network, s.vehicles@, s.tours@, s.vehicles@, tours1, v);
+}
+
+/// C10: the ids stay valid
+pub proof fn lemma_ids_stay_valid(s: &Schedule, v: VehicleIdx, tours1: TourMap, dummies1: TourMap, ids1: Seq<VehicleIdx>, counter1: usize, added: bool)
+    requires
+        s.ids_ok(), s.vehicles@.contains_key(v), s.vehicle_counter <= 0xffff,
+        tours1.contains_key(v), s.other_tours_untouched(v, tours1),
+        added ==> dummies1 == s.dummy_tours@.insert(s.next_dummy_id(), dummies1[s.next_dummy_id()]) && sorted_cmp(ids1) && counter1 == s.vehicle_counter + 1,
+        !added ==> dummies1 == s.dummy_tours@ && ids1 == s.dummy_ids_sorted@ && counter1 == s.vehicle_counter,
+    ensures
+        ids_valid(s.vehicles@, tours1, dummies1, ids1, counter1),
+{
+    assert forall|d: VehicleIdx| #[trigger] dummies1.contains_key(d) implies d is Dummy && (d->Dummy_0 as int) < counter1 by {
+        if d != s.next_dummy_id() { assert(s.dummy_tours@.contains_key(d)); }
+    }
+}
+
 /// the precondition of the rotation-cycle update for one shrunk tour
 pub proof fn lemma_upd_pre(s: &Schedule, v: VehicleIdx, nt: Tour, tours1: TourMap)
+    requires
+        s.rs_ok(), s.vehicles@.contains_key(v),
+        tours1 == s.tours@.insert(v, nt),
+        tour_ok(&s.network, &nt),
+    ensures
+        // for `vec![v]`, whatever sequence of one item its view is
+        forall|cv: Seq<VehicleIdx>| cv.len() == 1 && cv[0] == v
+            ==> #[trigger] s.upd_pre(s.next_period_transitions@, s.maintenance_violation as int, cv, s.vehicles@, tours1),
+        forall|cv: Seq<VehicleIdx>, vt: VehicleTypeIdx| cv.len() == 1 && cv[0] == v && vt != s.type_of(v)
+            ==> !#[trigger] s.touches_type(s.vehicles@, cv, vt),
+{
+    lemma_provider(s, v);
+    assert(s.vehicle_ok(v));
+    lemma_upd_pre_0(s, v, nt, tours1);
+    assert forall|cv: Seq<VehicleIdx>| cv.len() == 1 && cv[0] == v
+        implies #[trigger] s.upd_pre(s.next_period_transitions@, s.maintenance_violation as int, cv, s.vehicles@, tours1) by {
+        assert(cv =~= seq![v]);
+    }
+    assert forall|cv: Seq<VehicleIdx>, vt: VehicleTypeIdx| cv.len() == 1 && cv[0] == v && vt != s.type_of(v)
+        implies !#[trigger] s.touches_type(s.vehicles@, cv, vt) by {
+        if s.touches_type(s.vehicles@, cv, vt) {
+            let i = choose|i: int| 0 <= i < cv.len() && (#[trigger] cv[i]) is Vehicle && s.eff_type(s.vehicles@, cv[i]) == vt;
+            assert(cv[i] == v);
+        }
+    }
+}
+pub proof fn lemma_upd_pre_0(s: &Schedule, v: VehicleIdx, nt: Tour, tours1: TourMap)
     requires
         s.transitions_ok(), s.ids_ok(), s.vehicles@.contains_key(v),
         s.next_period_transitions@.contains_key(s.type_of(v)),
@@ -387,4 +588,17 @@ pub proof fn lemma_upd_pre(s: &Schedule, v: VehicleIdx, nt: Tour, tours1: TourMa
         assert(s.tours@.contains_key(u));
         if u == v { assert(cv[0] == v); assert(cv.contains(v)); }
     }
+}
+/// what the rotation-cycle update guarantees (its contract, slices/sched_guard.vs), for the single changed vehicle v
+pub proof fn lemma_transitions_follow(s: &Schedule, v: VehicleIdx, trs1: Map<VehicleTypeIdx, Transition>, mv1: MaintenanceCounter, tours1: TourMap)
+    requires
+        forall|vt: VehicleTypeIdx| s.next_period_transitions@.contains_key(vt) <==> #[trigger] trs1.contains_key(vt),
+        forall|vt: VehicleTypeIdx| #[trigger] trs1.contains_key(vt) ==> trs1[vt].wf(&s.network, tours1),
+        forall|vt: VehicleTypeIdx, u: VehicleIdx| #![trigger trs1[vt].has_vehicle(u)] trs1.contains_key(vt)
+            ==> (trs1[vt].has_vehicle(u) <==> (s.vehicles@.contains_key(u) && vtype(s.vehicles@[u]) == vt)),
+        mv1 == viol_sum(trs1, sched_types(s)),
+        forall|vt: VehicleTypeIdx| #[trigger] trs1.contains_key(vt) && vt != s.type_of(v) ==> trs1[vt] == s.next_period_transitions@[vt],
+    ensures
+        s.transitions_follow(v, trs1, mv1, s.vehicles@, tours1),
+{
 }
